@@ -120,6 +120,32 @@ def gen_big(nfun, nstr, nstmt):
     return "".join(out)
 
 
+def gen_wide():
+    """declarations whose member counts sit around the fixed-size buffers a compiler typically has: extern functions with
+    0, 1, 15, 16, 17, 18, 32 and 40 parameters (declared, some called), functions with 16 / 17 / 33 parameters, structs
+    with 16 / 17 / 64 / 65 fields, an enum with 65 variants, a union with 33 variants, 17 / 33-element tuples are left
+    out (tuples are 'in development')."""
+    out = []
+    for n in (0, 1, 15, 16, 17, 18, 32, 40):
+        out.append("extern fn wide_ext_%d(%s) -> int\n" % (n, ", ".join("p%d: %s" % (i, "int" if i % 3 else "float") for i in range(n))))
+    out.append("extern fn labs(x: int) -> int\n")
+    for n in (16, 17, 33):
+        out.append("fn wide_fn_%d(%s) -> int {\n    return (+ a0 a%d)\n}\nshadow wide_fn_%d { assert true }\n" % (n, ", ".join("a%d: int" % i for i in range(n)), n - 1, n))
+    for n in (16, 17, 64, 65):
+        out.append("struct Wide%d { %s }\n" % (n, ", ".join("f%d: int" % i for i in range(n))))
+    out.append("enum WideE { %s }\n" % ", ".join("V%d" % i for i in range(65)))
+    out.append("union WideU { %s }\n" % ", ".join("U%d { x%d: int }" % (i, i) for i in range(33)))
+    out.append("fn main() -> int {\n")
+    for n in (16, 17, 33):
+        out.append("    (println (wide_fn_%d %s))\n" % (n, " ".join(str(i) for i in range(n))))
+    for n in (16, 17, 64, 65):
+        out.append("    let s%d: Wide%d = Wide%d { %s }\n    (println s%d.f%d)\n" % (n, n, n, ", ".join("f%d: %d" % (i, i) for i in range(n)), n, n - 1))
+    out.append("    let e: WideE = WideE.V64\n    (println (== e WideE.V0))\n")
+    out.append("    let u: WideU = WideU.U32 { x32: 5 }\n    match u {\n%s    }\n" % "".join("        U%d(b) => { (println b.x%d) }\n" % (i, i) for i in range(33)))
+    out.append("    let mut r: int = 0\n    unsafe { set r (labs -3) }\n    (println r)\n    return 0\n}\nshadow main { assert true }\n")
+    return "".join(out)
+
+
 def _accepted(tree, lnk, work, program):
     cfg = dict((n, v[0]) for n, v in DIMS)
     o = run_cell(tree.root, lnk, program, cfg, os.path.join(work, "fit"), keep=True)
@@ -141,6 +167,7 @@ def build_corpus(tier, tree, lnk, work):
         progs.append(prog(os.path.basename(d), files, origin="multi-module"))
     progs.append(prog("g_big", {"main.nano": gen_big(120, 400, 1500)}, origin="generated: 120 functions, 400 strings, one 1500-statement function"))
     progs.append(prog("g_many", {"main.nano": gen_big(40, 100, 12)}, origin="generated: 40 functions, 100 strings"))
+    progs.append(prog("g_wide", {"main.nano": gen_wide()}, origin="generated: declarations with member counts around 16 / 32 / 64 (extern parameters, parameters, fields, variants)"))
     # enumerator batches: a leading block and an evenly strided block of every layer (deterministic slices of the
     # exhaustive enumeration; prefix and infix spelling).  The block length is the largest of 120/60/30/15 that both
     # tools accept (a batch can exceed a tool limit or contain a case of an open front-end finding).
@@ -164,7 +191,7 @@ def build_corpus(tier, tree, lnk, work):
                 if _accepted(tree, lnk, work, cand):
                     break
             progs.append(cand)
-    quick = ["c_structs", "c_floats", "c_strpool", "k_hashmap", "k_data", "k_builtins", "mm_one", "mm_two", "mm_extern", "mm_rebind", "g_big",
+    quick = ["c_structs", "c_floats", "c_strpool", "k_hashmap", "k_data", "k_builtins", "mm_one", "mm_two", "mm_extern", "mm_rebind", "g_big", "g_wide",
              "d_typeerr", "d_noshadow", "d_shadowfail", "b_layer_S_head", "b_layer_D_head"]
     names = [p["name"] for p in progs]
     if len(set(names)) != len(names):
